@@ -647,6 +647,28 @@ func (env *SpecEnv) call(x *SExpr) SV {
 		return SV{t: fmt.Sprintf("(imax %s %s)", argv(0).t, argv(1).t), sort: "Int"}
 	case "min":
 		return SV{t: fmt.Sprintf("(imin %s %s)", argv(0).t, argv(1).t), sort: "Int"}
+	case "sprintf": // sprintf(fmt, a, b, ...) over string arguments: the same uninterpreted function the code's fmt.Sprintf maps to
+		n := len(x.Args) - 1
+		if n < 1 {
+			break
+		}
+		fn := fmt.Sprintf("sprintf%d", n)
+		sorts := []string{sortStr}
+		as := []string{argv(0).t}
+		for i := 1; i <= n; i++ {
+			sorts = append(sorts, sortAny)
+			a := argv(i)
+			switch a.sort {
+			case sortStr:
+				as = append(as, fmt.Sprintf("(any_str %s)", a.t))
+			case "Int":
+				as = append(as, fmt.Sprintf("(any_int %s)", a.t))
+			default:
+				env.fail("sprintf: unsupported argument sort %s", a.sort)
+			}
+		}
+		g.DeclFun(fn, sorts, sortStr)
+		return SV{t: fmt.Sprintf("(%s %s)", fn, strings.Join(as, " ")), sort: sortStr, gt: types.Typ[types.String]}
 	case "same": // structural identity (for float fields: bit-identical, unlike Go's ==)
 		return SV{t: fmt.Sprintf("(= %s %s)", argv(0).t, argv(1).t), sort: "Bool"}
 	case "isnil":
